@@ -2,7 +2,7 @@
    closed k t X: every member of X has at least t shift successors in X and, for t = 1, reaches inside X a member with
    two or more successors in X; largest_closed k t M X: X is closed, inside M, and contains every closed subset of M. *)
 From DSW Require Import Py Bignum Convert Kmer Graph Spec GraphSpec.
-From DSW.Proofs Require Import GenerateProofs.
+From DSW.Proofs Require Import GenerateProofs TrimMapProofs.
 
 Theorem C03_thresholds_2_to_4 : forall k t mask, (1 <= k)%nat -> length mask = Z.to_nat (pow4 k) -> Forall bit mask -> 2 <= t ->
   match connect_coding_graph k mask t with
@@ -46,6 +46,25 @@ Theorem C03_unique : forall k t M X1 X2,
   largest_closed k t M X1 -> largest_closed k t M X2 -> forall v, vin k X1 v <-> vin k X2 v.
 Proof. exact largest_closed_unique. Qed.
 
+(* trimming a latter map to the same threshold (remove_useless through latter_map_to_accessor) gives the same graph for
+   t >= 2; when nothing is left the mask version raises ValueError and the latter-map version returns the arc-less accessor *)
+Theorem C03_latter_map_trimming : forall k t mask, (1 <= k)%nat -> length mask = Z.to_nat (pow4 k) -> Forall bit mask ->
+  2 <= t ->
+  match connect_coding_graph k mask t with
+  | Ok (V, acc) => latter_map_to_accessor (accessor_to_latter_map (induced k mask)) k (Some t) = Ok acc
+  | Raise ValueError => latter_map_to_accessor (accessor_to_latter_map (induced k mask)) k (Some t) = Ok (blank_accessor k)
+  | _ => False
+  end.
+Proof. exact latter_map_trimming_agrees. Qed.
+(* what remove_useless computes, for every threshold >= 1: the latter map of the induced graph on the largest subset in which
+   every member has at least t successors (for t = 1 this is NOT yet the coding graph: the reachability clause is missing) *)
+Theorem C03_remove_useless : forall k t mask, (1 <= k)%nat -> length mask = Z.to_nat (pow4 k) -> Forall bit mask -> 1 <= t ->
+  exists X : vset,
+    closed_deg k t X /\ vsub k X (maskb mask)
+    /\ (forall Y, closed_deg k t Y -> vsub k Y (maskb mask) -> vsub k Y X)
+    /\ remove_useless (accessor_to_latter_map (induced k mask)) t = Ok (accessor_to_latter_map (induced_on k X)).
+Proof. exact remove_useless_spec. Qed.
+
 (* non-vacuity, incl. the two order-2 masks on which the pinned tree failed before the repair *)
 Example C03_nonvacuous :
   connect_coding_graph 2 [1;1;0;0;1;1;0;0;0;0;0;0;0;0;0;1] 1 =
@@ -61,3 +80,5 @@ Print Assumptions C03_threshold_1.
 Print Assumptions C03_trimming.
 Print Assumptions C03_monotone.
 Print Assumptions C03_unique.
+Print Assumptions C03_latter_map_trimming.
+Print Assumptions C03_remove_useless.
